@@ -5,6 +5,7 @@ pub mod broker_run;
 pub mod c02;
 pub mod c05;
 pub mod c09;
+pub mod c14;
 pub mod c15;
 pub mod c20;
 pub mod crc;
